@@ -206,10 +206,99 @@ pub fn lopsided_huge_pool(run: &Run) {
     println!("  scenario lopsided-huge-pool: {} of {} steps", taken, script.len());
 }
 
+/// Histories of one user pool at the edge of its 128-bit liquidity record: created lopsided (2^k against 1), then given two
+/// further deposits from a small grid, one block each - among them the ones where every single mint fits 128 bits but the record
+/// plus the mint does not - and finally the first provider redeems.  Every state goes through the engine's oracles (liquidity
+/// tokens in coins <= the pool's record, reserves non-zero, lock-step with the reference settlement).
+pub fn huge_pool_histories(run: &Run, thorough: bool) {
+    use melstructs::TxKind;
+    let creations: Vec<(u128, u128)> = if thorough { vec![(1 << 100, 1), (1 << 110, 1), (1 << 118, 1), (1 << 120, 1), (1 << 118, 3)] } else { vec![(1 << 110, 1), (1 << 118, 1), (1 << 120, 1)] };
+    let deposits: Vec<(u128, u128)> = if thorough { vec![(1 << 60, 1), (1 << 68, 1 << 68), (1 << 93, 1 << 93), (1 << 120, 1 << 120), (1 << 119, 1 << 10), (1 << 80, 1 << 100)] } else { vec![(1 << 68, 1 << 68), (1 << 93, 1 << 93), (1 << 120, 1 << 120), (1 << 60, 1)] };
+    let eng = Engine::new(run);
+    let mut histories = 0u64;
+    let mut settled_all = 0u64;
+    for (ci, c) in creations.iter().enumerate() {
+        for (i1, d1) in deposits.iter().enumerate() {
+            for (i2, d2) in deposits.iter().enumerate() {
+                let (_w, rootn) = root(NetID::Custom02, 0, false);
+                let tag = vec![0x10, 0xa0, ci as u8, i1 as u8, i2 as u8];
+                let fund = tx_t(TxKind::Faucet, vec![], vec![out_t(c.0, Denom::Mel), out_t(d1.0, Denom::Mel), out_t(d2.0, Denom::Mel), out_t(5000, Denom::Mel), out_t(5001, Denom::Mel)], 0, tag.clone());
+                let mint = tx_t(TxKind::Normal, vec![fund.output_coinid(3)], vec![out_t(5000, Denom::Mel), out_t(c.1, Denom::NewCustom), out_t(d1.1, Denom::NewCustom), out_t(d2.1, Denom::NewCustom)], 0, tag.clone());
+                let token = Denom::Custom(mint.hash_nosigs());
+                let pool = PoolKey::new(Denom::Mel, token);
+                let side = |mel: u128, tok: u128| if pool.left() == Denom::Mel { vec![out_t(mel, Denom::Mel), out_t(tok, token)] } else { vec![out_t(tok, token), out_t(mel, Denom::Mel)] };
+                let ins = |k: u8| if pool.left() == Denom::Mel { vec![fund.output_coinid(k), mint.output_coinid(k + 1)] } else { vec![mint.output_coinid(k + 1), fund.output_coinid(k)] };
+                let dep = |k: u8, a: (u128, u128)| tx_t(TxKind::LiqDeposit, ins(k), side(a.0, a.1), 0, pool.to_bytes().to_vec());
+                let (da, db, dc) = (dep(0, *c), dep(1, *d1), dep(2, *d2));
+                let liq = pool.liq_token_denom();
+                let mut script: Vec<Action> = vec![
+                    Action::Open,
+                    Action::Batch { label: format!("faucet of MEL coins {} / {} / {}", c.0, d1.0, d2.0), txs: vec![fund.clone()], expect_ok: true },
+                    Action::Batch { label: format!("mint of a token: coins of {} / {} / {}", c.1, d1.1, d2.1), txs: vec![mint.clone()], expect_ok: true },
+                    Action::Seal(None),
+                ];
+                for (name, d) in [("creating deposit", &da), ("second deposit", &db), ("third deposit", &dc)] {
+                    script.push(Action::Open);
+                    script.push(Action::Batch { label: format!("{} {}:{}", name, d.outputs[0].value.0, d.outputs[1].value.0), txs: vec![d.clone()], expect_ok: true });
+                    script.push(Action::Seal(None));
+                }
+                let mut node = rootn;
+                let mut taken = 0u64;
+                let mut ended = false;
+                for a in &script {
+                    match eng.step(&node, a) {
+                        StepOut::Next(n) => {
+                            node = n;
+                            taken += 1;
+                        }
+                        StepOut::Rejected => run.outcome("huge-pool-history:step-refused"),
+                        StepOut::Pruned => {
+                            run.outcome("huge-pool-history:engine-reported");
+                            ended = true;
+                            break;
+                        }
+                    }
+                }
+                if !ended {
+                    // the first provider redeems whatever its deposit coin has become (a liquidity token if the deposit was settled)
+                    let held = node.model.coins.get(&da.output_coinid(0)).map(|c| (c.coin_data.denom, c.coin_data.value.0));
+                    if let Some((d, v)) = held {
+                        if d == liq && v > 0 {
+                            let wd = tx_t(TxKind::LiqWithdraw, vec![da.output_coinid(0), fund.output_coinid(4)], vec![out_t(v, liq), out_t(5001, Denom::Mel)], 0, pool.to_bytes().to_vec());
+                            for a in [Action::Open, Action::Batch { label: "first provider withdraws".into(), txs: vec![wd], expect_ok: true }, Action::Seal(None), Action::Open, Action::Seal(None)] {
+                                match eng.step(&node, &a) {
+                                    StepOut::Next(n) => {
+                                        node = n;
+                                        taken += 1;
+                                    }
+                                    StepOut::Rejected => run.outcome("huge-pool-history:step-refused"),
+                                    StepOut::Pruned => {
+                                        run.outcome("huge-pool-history:engine-reported");
+                                        break;
+                                    }
+                                }
+                            }
+                        }
+                    }
+                    let tokens: u128 = [&da, &db, &dc].iter().filter_map(|d| node.model.coins.get(&d.output_coinid(0))).filter(|c| c.coin_data.denom == liq).count() as u128;
+                    if tokens >= 2 {
+                        settled_all += 1;
+                    }
+                }
+                run.states_add(taken);
+                histories += 1;
+            }
+        }
+    }
+    run.set("scenario:huge-pool-histories", json!({"creations": creations.iter().map(|c| format!("{}:{}", c.0, c.1)).collect::<Vec<_>>(), "deposits": deposits.iter().map(|c| format!("{}:{}", c.0, c.1)).collect::<Vec<_>>(), "histories": histories, "histories_with_two_or_more_providers_holding_tokens_at_the_end": settled_all}));
+    println!("  scenario huge-pool-histories: {} histories", histories);
+}
+
 pub fn run(run: &Run) {
     long_histories(run, run.thorough());
     huge_liquidity(run, run.thorough());
     lopsided_huge_pool(run);
+    huge_pool_histories(run, run.thorough());
     unissued_liquidity_tokens(run, run.thorough());
     custom_pool_withdrawals(run, run.thorough());
     for sc in scenarios(run.thorough()) {
